@@ -10,7 +10,7 @@
    still recognises the old shapes of that code and then emits tables for which `tables_ok` is false,
    so a regression breaks C13_source_tables_ok and everything that depends on it. *)
 From Coq Require Import ZArith List Bool.
-From PyxelV Require Import Model.Containers Proofs.Containers Proofs.ContainersEq Proofs.ContainersAssign.
+From PyxelV Require Import Model.Containers Proofs.Containers Proofs.ContainersEq Proofs.ContainersAssign Proofs.ContainersJudge.
 From PyxelGen Require Import Gen_C13.
 Import ListNotations.
 
@@ -328,4 +328,38 @@ Example C13_ex_eq_wavelength :
   /\ eq_res src_tables (ph3 [400; 420]%Z) (ph3 [420; 400]%Z) = RetBool false
   /\ eq_spec (ph3 [400; 420]%Z) (ph3 [400; 440]%Z) = false
   /\ Inv (ph3 [400; 440]%Z) /\ content_nan_free (ph3 [400; 440]%Z) = true.
+Proof. vm_compute. repeat split; reflexivity. Qed.
+
+(* ------------------------------------------------------------------ the judge of the implementation *)
+
+(* The harness judges what the IMPLEMENTATION shows after every operation with `case_violations` (eight clauses:
+   invariant, failed operation preserves, read of an empty container raises, a read returns the stored array,
+   equality, resets, illegal assignments are refused, completed assignments store the assigned array).  Applied to
+   the model's own behaviour it never reports anything: for ALL operation sequences, from every state that
+   satisfies the invariant and is accepted by its setter (comparison operands satisfying the invariant; sequences
+   inside the modelled domain).  Every clause is therefore a consequence of the theorems above, and an
+   implementation that behaves like the model is never reported by the judge. *)
+Theorem C13_judge_accepts_model :
+  forall (ops : list op) (c : container) (ci j : nat),
+    Inv c -> accepted src_tables c = true -> eq_operands_inv ops = true -> hits_unmodelled src_tables c ops = false ->
+    case_violations (c_kind c) (c_rows c) (c_cols c) ops (model_obs src_tables c ops) (c_content c) ci j = [].
+Proof. intros. apply (judge_accepts_model src_tables C13_source_tables_ok); assumption. Qed.
+Print Assumptions C13_judge_accepts_model.
+
+Theorem C13_judge_accepts_model_from_empty :
+  forall (ops : list op) (k : ckind) (r c : nat),
+    eq_operands_inv ops = true -> hits_unmodelled src_tables (empty_container k r c) ops = false ->
+    violations [mk_case k r c ops (model_obs src_tables (empty_container k r c) ops)] = [].
+Proof.
+  intros ops k r c He Hu. unfold violations. cbn [violations_from mk_case k_kind k_rows k_cols k_ops k_obs]. rewrite app_nil_r.
+  exact (C13_judge_accepts_model ops (empty_container k r c) 0 0 (inv_empty k r c) (accepted_empty src_tables k r c) He Hu).
+Qed.
+Print Assumptions C13_judge_accepts_model_from_empty.
+
+(* non-vacuity: the long photon history above meets the hypotheses; and the judge is not trivially silent (it
+   reports the stale read below; C13_ex_assign shows clauses 7 and 8) *)
+Example C13_ex_judge :
+  eq_operands_inv ex_ops_photon = true /\ hits_unmodelled src_tables (empty_container Photon 2 3) ex_ops_photon = false
+  /\ violations [mk_case Photon 2 3 ex_ops_photon (model_obs src_tables (empty_container Photon 2 3) ex_ops_photon)] = []
+  /\ violations [mk_case Signal 2 2 [ORead] [mk_obs (RetArr (mk_np [2; 2] F64 [0; 0; 0; 0]%Z)) None [2; 2] None]] = [0; 0; 3].
 Proof. vm_compute. repeat split; reflexivity. Qed.
